@@ -4,8 +4,8 @@ the manifest stays valid while properties are added)."""
 import json, subprocess
 
 claimed = {
- "C01": dict(text="Deductive proof, per function, that the evaluator's overflow-checked arithmetic and duration conversions equal their mathematical specification for all 2^64 operands (see evidence for the list of functions under contract).",
-             note="Contracts cover the functions listed in evidence.functions_under_contract only; everything else anchored by C01 is unverified surroundings. Trusted: govc VC generator, z3/cvc5, Go type checker.",
+ "C01": dict(text="Deductive proof, one contract per evaluator node (all operators, literals, variables, extension functions and the AST-to-evaluator wiring ToEval), that Eval returns the value the Cedar semantics defines in terms of the results of its operands on the same environment, and an error exactly in the specified cases (operand error first in source order, then type error, overflow, missing attribute/tag/entity, arity); checked arithmetic equals mathematical arithmetic on all 2^64 operands.",
+             note="The specification is the contract text itself (written from the property statement and the Cedar operator table), not the Lean model. Set/record values are used through observer contracts (membership up to Equal, lookup); decimal/ip/datetime parsing of literal strings is covered to the extent of the C12 contracts; `like` matching and `in` reachability are separate contracts (C03). Trusted: govc VC generator, z3/cvc5, Go type checker.",
              ref="DESIGN.md §6 C01"),
  "C12": dict(text="Deductive proof that decimal/duration constructors, parsers' integer arithmetic and conversions are exact or return an error (no silent wrap) for all inputs; formatting/byte-level round trips are not covered.",
              note="strconv/strings/time callees are used through assumed contracts (contracts/stdlib.spec); text produced by fmt/strconv is opaque. One known finding (Duration(MinInt64).String()).",
@@ -27,6 +27,20 @@ claimed.update({
  "C19": dict(text="Frame proof (syntactic assigns/modifies analysis, transitive over callees) that the read-only entry points (Authorize, IsAuthorized, Marshal*, accessors) write only memory they allocated themselves; two calls that only read shared memory cannot race and a function of immutable inputs returns what it would return alone.",
              note="Concurrency itself (interleavings, the race detector) is outside this technique; the frame condition is the sufficient condition decided here. Interface methods and unlisted standard-library callees are assumed not to write through their arguments.",
              ref="DESIGN.md §6 C19"),
+})
+claimed.update({
+ "C04": dict(text="Deductive proof that fold returns, for every node kind, either the node rebuilt from its folded children or - only when every child folded to a literal, the operator is not one that consults the request or the entity store, and evaluating exactly the evaluator ToEval would build on those literals succeeds - that literal result; per-operator lemmas then prove that this preserves the evaluation result on every environment given the same for the children, and three lemmas carry it along the conjunction PolicyToNode builds. foldPolicy is proved to work on a copy (frame + field-wise postcondition) and Compile to run exactly ToEval(PolicyToNode(foldPolicy(p))).",
+             note="The structural induction over expression trees / condition lists that combines the per-node lemmas is applied outside the solver (each step is a discharged obligation, the schema is not). Extension calls, set and record literals: only the shape of the rebuilt node is proved, not the folded value. Text/JSON forms unchanged follows from the frame proof of foldPolicy/Compile (the stored AST is not written); the encoders themselves are not under contract.",
+             ref="DESIGN.md §6 C04"),
+ "C11": dict(text="Deductive proof of the per-type Equal methods against structural equality for the scalar value types, lemmas for reflexivity/symmetry/transitivity/type-distinction over those, the mapset container against its set view, and a frame proof that constructors/accessors of values copy what they are given or hand out (immutability).",
+             note="Set and Record equality are used through observer contracts (membership up to Equal, key/value lookup); the open-addressing hash layout of types.Set and the text/JSON round trip of equal values are not under contract. Laws are proved for scalar values and stated for composite values only via the observers.",
+             ref="DESIGN.md §6 C11"),
+ "C14": dict(text="Deductive proof that the map-backed encoders under contract (Record/Set MarshalCedar and MarshalJSON, PolicySet.MarshalCedar) emit their elements in sorted key order - sortedness and completeness of the key list asserted after the sort for every map iteration order - and that a record literal evaluates its attributes in sorted key order (first error is order-independent).",
+             note="Only the order-determining step is proved; the bytes written for each element (fmt/strconv/encoding/json) are opaque to the contract logic. Determinism of Authorize's decision/reason/error sets is the C02 proof (set-based specification, independent of enumeration order). Entity map, schema and policy JSON encoders are not under contract.",
+             ref="DESIGN.md §6 C14"),
+ "C16": dict(text="Deductive proof of panic-freedom and totality of Validator.typeOfValue for every value (including set, record and extension literals decoded from JSON), plus the panic-freedom sweep with termination measures of the schema text lexer.",
+             note="Thin slice: resolution (cycle handling), the remaining type checker and termination of isEntityDescendant (repaired by a fix commit, visited set) are unverified surroundings; see DESIGN.md for what was tried.",
+             ref="DESIGN.md §6 C16"),
 })
 na = {}
 props = [json.loads(l) for l in open('properties.jsonl')]
